@@ -73,4 +73,15 @@ theorem mapping_eq (nodes : List Nat) :
     mapping nodes = (List.range (classes nodes).length).zip (classes nodes) := by
   simp [mapping, map_encode _ (classes_nodup nodes)]
 
+/-- the fitted encoder depends on the SET of labels only, not on the order in which `get_nodes()` lists them
+(the listing order is what a history of removals and re-insertions changes) -/
+theorem classes_congr (l l' : List Nat) (h : ∀ x, x ∈ l ↔ x ∈ l') : classes l = classes l' := by
+  have hp : (classes l).Perm (classes l') :=
+    (List.perm_ext_iff_of_nodup (classes_nodup l) (classes_nodup l')).2
+      (fun a => by rw [mem_classes, mem_classes]; exact h a)
+  exact hp.eq_of_pairwise (le := (· < ·)) (fun a b _ _ h1 h2 => by omega) (classes_sorted l) (classes_sorted l')
+
+theorem classes_perm_congr (l l' : List Nat) (h : l.Perm l') : classes l = classes l' :=
+  classes_congr l l' (fun _ => h.mem_iff)
+
 end C09
